@@ -283,6 +283,11 @@ class _RequestReceiver(Generic[_T_Request]):
                         request = consumer.next(data)
                     except StopIteration:
                         pass
+                    except Exception:
+                        # A backlog of malformed requests must not be thrown into the request handler without ever suspending.
+                        if data is None:
+                            await self.__backend.cancel_shielded_coro_yield()
+                        raise
                     else:
                         if data is None:
                             await self.__backend.cancel_shielded_coro_yield()
@@ -328,6 +333,11 @@ class _BufferedRequestReceiver(Generic[_T_Request]):
                         request = consumer.next(nbytes)
                     except StopIteration:
                         pass
+                    except Exception:
+                        # A backlog of malformed requests must not be thrown into the request handler without ever suspending.
+                        if nbytes is None:
+                            await self.__backend.cancel_shielded_coro_yield()
+                        raise
                     else:
                         if nbytes is None:
                             await self.__backend.cancel_shielded_coro_yield()
